@@ -24,3 +24,40 @@ pub broadcast axiom fn key_model_ca() ensures #[trigger] vstd::std_specs::hash::
 pub open spec fn node_ok(starts: Seq<u16>, edges: Seq<u16>, i: int) -> bool {
     match node_edges_spec(starts, edges, i) { Some(es) => forall|k: int| 0 <= k < es.len() ==> (#[trigger] es[k] as int) < starts.len(), None => false } }
 pub open spec fn graph_ok(starts: Seq<u16>, edges: Seq<u16>) -> bool { forall|i: int| 0 <= i < starts.len() ==> #[trigger] node_ok(starts, edges, i) }
+
+// ---- deferral (C01 / C03): the deferred set is exactly the descendant closure of the flagged nodes, however the nodes are numbered
+pub open spec fn child_of(starts: Seq<u16>, edges: Seq<u16>, a: u16, b: u16) -> bool {
+    match node_edges_spec(starts, edges, a as int) { Some(es) => es.contains(b), None => false } }
+pub open spec fn is_path(starts: Seq<u16>, edges: Seq<u16>, p: Seq<u16>) -> bool {
+    p.len() >= 1 && forall|i: int| 0 <= i < p.len() - 1 ==> child_of(starts, edges, #[trigger] p[i], p[i + 1]) }
+// d is a flagged node or a descendant of one
+pub open spec fn descends(starts: Seq<u16>, edges: Seq<u16>, flag: spec_fn(int) -> bool, d: u16) -> bool {
+    exists|p: Seq<u16>| #[trigger] is_path(starts, edges, p) && (p[0] as int) < starts.len() && flag(p[0] as int) && p.last() == d }
+pub open spec fn flagged(flag: spec_fn(int) -> bool, i: int) -> bool { flag(i) }
+pub open spec fn in_work(d: Set<u16>, p: Seq<u16>, x: u16) -> bool { d.contains(x) || p.contains(x) }
+pub proof fn lemma_descends_self(starts: Seq<u16>, edges: Seq<u16>, flag: spec_fn(int) -> bool, d: u16)
+    requires (d as int) < starts.len(), flag(d as int) ensures descends(starts, edges, flag, d)
+{ let p = seq![d]; assert(is_path(starts, edges, p)); assert(p[0] == d && p.last() == d); }
+pub proof fn lemma_descends_step(starts: Seq<u16>, edges: Seq<u16>, flag: spec_fn(int) -> bool, a: u16, b: u16)
+    requires descends(starts, edges, flag, a), child_of(starts, edges, a, b) ensures descends(starts, edges, flag, b)
+{
+    let p = choose|p: Seq<u16>| #[trigger] is_path(starts, edges, p) && (p[0] as int) < starts.len() && flag(p[0] as int) && p.last() == a;
+    let q = p.push(b);
+    assert forall|i: int| 0 <= i < q.len() - 1 implies child_of(starts, edges, #[trigger] q[i], q[i + 1]) by {
+        if i < p.len() - 1 { assert(q[i] == p[i] && q[i + 1] == p[i + 1]); } else { assert(q[i] == a && q[i + 1] == b); } }
+    assert(is_path(starts, edges, q)); assert(q[0] == p[0]); assert(q.last() == b);
+}
+pub proof fn lemma_work_push(d: Set<u16>, p: Seq<u16>, y: u16)
+    ensures in_work(d, p.push(y), y), forall|x: u16| #[trigger] in_work(d, p, x) ==> in_work(d, p.push(y), x)
+{
+    assert(p.push(y)[p.len() as int] == y);
+    assert forall|x: u16| #[trigger] in_work(d, p, x) implies in_work(d, p.push(y), x) by {
+        if p.contains(x) { let i = choose|i: int| 0 <= i < p.len() && p[i] == x; assert(p.push(y)[i] == x); } }
+}
+pub proof fn lemma_work_move(d: Set<u16>, p: Seq<u16>, y: u16)
+    ensures forall|x: u16| #[trigger] in_work(d, p.push(y), x) ==> in_work(d.insert(y), p, x)
+{
+    assert forall|x: u16| #[trigger] in_work(d, p.push(y), x) implies in_work(d.insert(y), p, x) by {
+        if p.push(y).contains(x) { let i = choose|i: int| 0 <= i < p.push(y).len() && p.push(y)[i] == x;
+            if i < p.len() { assert(p[i] == x); } else { assert(x == y); } } }
+}
